@@ -995,6 +995,10 @@ func c11Gen(p *reg.Pkg, api string, seed int64) *c11Call {
 		if r.Intn(6) == 0 {
 			path.Elem = append(path.Elem, &gpb.PathElem{Name: "no-such-node-zz"})
 		}
+		if r.Intn(8) == 0 {
+			// an "absolute" path: leading element with an empty name (matches nothing)
+			path.Elem = append([]*gpb.PathElem{{}}, path.Elem...)
+		}
 		c.term = "KGetNode"
 		c.tree(0, t, false)
 		c.plain("CPath", path)
@@ -1276,6 +1280,11 @@ func c11Gen(p *reg.Pkg, api string, seed int64) *c11Call {
 			reached = len(path.Elem) <= 1
 		case 1: // unknown node
 			path.Elem = append(path.Elem[:len(path.Elem)-1], &gpb.PathElem{Name: "no-such-node-zz"})
+			if r.Intn(2) == 0 {
+				// an "absolute" path: leading element with an empty name (matches nothing)
+				path = c11ClonePath(site.path)
+				path.Elem = append([]*gpb.PathElem{{}}, path.Elem...)
+			}
 			opts = append(opts, &ytypes.InitMissingElements{})
 			reached = false
 		case 2: // an existing leaf of a generated tree, no InitMissingElements
